@@ -98,6 +98,28 @@ impl Case {
 }
 
 /// returns findings (clause, canonical kind, detail)
+/// where the last write of (db, key) sits in the case: this separates a joiner that lost the tail
+/// it had only in memory (known finding) from data that changed while it was away
+fn provenance(c: &Case, db: &str, key: &str) -> &'static str {
+    let touches = |o: &Op| match o {
+        Op::Set(d, k, _) | Op::Remove(d, k) | Op::Inc(d, k) => *d == db && *k == key,
+        _ => false,
+    };
+    if c.away.iter().any(touches) {
+        return "changed while the joiner was away";
+    }
+    match c.before.iter().rposition(touches) {
+        None => "never written",
+        Some(i) => {
+            if c.before[i + 1..].iter().any(|o| matches!(o, Op::Snapshot(d) if *d == db)) {
+                "snapshotted before the joiner left"
+            } else {
+                "in the tail the joiner held only in memory"
+            }
+        }
+    }
+}
+
 pub fn run_case(c: &Case) -> Result<Vec<(String, String, String)>, String> {
     let mut w = settled_cluster_clocked(2, true)?;
     let mut out = vec![];
@@ -141,11 +163,11 @@ pub fn run_case(c: &Case) -> Result<Vec<(String, String, String)>, String> {
                     }
                     for (k, (v, ver)) in keys.iter() {
                         match jkeys.get(k) {
-                            None => out.push(("key-missing-on-joiner".to_string(), "key missing".to_string(), format!("{}.{}={:?} (v{}) on the primary, absent on the joiner", db, k, v, ver))),
+                            None => out.push(("key-missing-on-joiner".to_string(), format!("key missing ({})", provenance(c, db, k)), format!("{}.{}={:?} (v{}) on the primary, absent on the joiner", db, k, v, ver))),
                             Some((jv, jver)) => {
                                 if jv != v {
                                     let kind = if v.contains(' ') { "value with spaces" } else if v.is_empty() { "empty value" } else if v.chars().next().map(|c| c.is_ascii_digit()).unwrap_or(false) { "numeric-first value" } else { "plain value" };
-                                    out.push(("value-differs-on-joiner".to_string(), kind.to_string(), format!("{}.{}: {:?} on the primary, {:?} on the joiner", db, k, v, jv)));
+                                    out.push(("value-differs-on-joiner".to_string(), format!("{} ({})", kind, provenance(c, db, k)), format!("{}.{}: {:?} on the primary, {:?} on the joiner", db, k, v, jv)));
                                 } else if jver != ver {
                                     out.push(("version-differs-on-joiner".to_string(), format!("joiner {} by {}", if jver > ver { "ahead" } else { "behind" }, (jver - ver).abs()), format!("{}.{}={:?}: version {} on the primary, {} on the joiner", db, k, v, ver, jver)));
                                 }
@@ -154,7 +176,7 @@ pub fn run_case(c: &Case) -> Result<Vec<(String, String, String)>, String> {
                     }
                     for (k, (jv, _)) in jkeys.iter() {
                         if !keys.contains_key(k) {
-                            out.push(("removed-key-still-on-joiner".to_string(), "removed key".to_string(), format!("{}.{} was removed on the primary, the joiner still has {:?}", db, k, jv)));
+                            out.push(("removed-key-still-on-joiner".to_string(), format!("removed key ({})", provenance(c, db, k)), format!("{}.{} was removed on the primary, the joiner still has {:?}", db, k, jv)));
                         }
                     }
                 }
@@ -361,4 +383,67 @@ pub fn run(run: &mut Run) {
     run.assume("all nodes read one logical clock (synchronised wall clocks), because the catch-up protocol compares the joiner's last op time with the primary's record times");
     run.assume("the exchange is run with a fixed FIFO delivery policy (the quantifier of C05 is over histories, split points and joiner disks; delivery orders are C04's)");
     run.assume("joiner start-up = world::Node::start (mirrors main.rs); join = the short `join` connection of ask_to_join_all_replicas + start_inital_election");
+}
+
+/// `./check replay <file>` for a C05 case: the case is run again and the messages exchanged from
+/// the moment the joiner comes back are printed together with both nodes' views.
+pub fn replay_case(name: &str) -> i32 {
+    crate::net::init_sleep_sites();
+    let c = match cases(false).into_iter().chain(cases(true)).find(|c| c.name() == name) {
+        Some(c) => c,
+        None => {
+            eprintln!("unknown C05 case {:?}", name);
+            return 2;
+        }
+    };
+    let mut w = match settled_cluster_clocked(2, true) {
+        Ok(w) => w,
+        Err(e) => {
+            eprintln!("machinery: {}", e);
+            return 2;
+        }
+    };
+    let r = (|| -> Result<(), String> {
+        for o in c.before.iter() {
+            exec_op(&mut w, o)?;
+        }
+        w.kill_node(1)?;
+        w.run_to_quiescence(20000)?;
+        for o in c.away.iter() {
+            exec_op(&mut w, o)?;
+        }
+        println!("primary before the rejoin: {:?}", view(&w, 0));
+        {
+            w.nodes[0].node.ctx.install();
+            let ops = nundb::disk_ops::read_operations_since(0);
+            let mut v: Vec<_> = ops.values().collect();
+            v.sort_by_key(|r| r.opp_position);
+            let keys = w.nodes[0].node.dbs.id_keys_map.read().unwrap().clone();
+            println!("primary's oplog (latest record per key): {:?}", v.iter().map(|r| format!("pos{} t{} db{} key{}({:?}) {:?}", r.opp_position, r.timestamp, r.db, r.key, keys.get(&r.key), match r.opp { nundb::bo::ReplicateOpp::Update => "Update", nundb::bo::ReplicateOpp::Remove => "Remove", nundb::bo::ReplicateOpp::CreateDb => "CreateDb", nundb::bo::ReplicateOpp::Snapshot => "Snapshot" })).collect::<Vec<_>>());
+        }
+        w.traffic.clear();
+        w.restart_node(1, c.joiner == Joiner::EmptyDisk, 200)?;
+        println!("joiner after its restart:  {:?}", view(&w, 1));
+        w.join_cluster(1)?;
+        w.run_to_quiescence(50000)?;
+        Ok(())
+    })();
+    if let Err(e) = r {
+        eprintln!("machinery: {}", e);
+        return 2;
+    }
+    println!("messages since the joiner came back:");
+    for (f, t, m) in w.traffic.iter() {
+        if !(m.contains("ack ") || m.ends_with("<- ok")) {
+            println!("   n{} -> n{}  {}", f + 1, t + 1, m);
+        }
+    }
+    println!("primary: {:?}", view(&w, 0));
+    println!("joiner:  {:?}", view(&w, 1));
+    w.shutdown();
+    let out = run_case(&c).unwrap_or_default();
+    for o in out.iter() {
+        println!("verdict: {} [{}] {}", o.0, o.1, o.2);
+    }
+    if out.is_empty() { 0 } else { 1 }
 }
